@@ -2,6 +2,7 @@ package main
 
 import (
 	"fmt"
+	"go/constant"
 	"go/token"
 	"go/types"
 	"sort"
@@ -160,6 +161,12 @@ func checkC02(c *Ctx) {
 	c.Rule("R9", "a writer blocked in a socket write is woken: the connection is closed after the reader returns and before the writer is joined (shared with C07.R2); no lock is held at a join that the joined goroutines need (shared with C09.R7)")
 	checkCloseBeforeJoin(c, "R9")
 	c.withAlias(map[string]string{"R7": "R9"}, func() { checkWaitForCycles(c) })
+	c.Rule("R10", "a shared connect attempt answers every waiter (shared with C07.R1): the winner stores the connection or the error it returns into the in-flight entry before it releases the waiters, and deletes the entry on every path")
+	if calls := p.Field(redisPkg, "upstream", "createClientCalls"); calls != nil {
+		checkSingleflightEntry(c, "R10", calls)
+	} else {
+		c.Unresolved("R10", "upstream.createClientCalls")
+	}
 
 	// ---------------- R7
 	for _, tn := range []string{"simpleRequest", "rawRequest"} {
@@ -341,11 +348,14 @@ func checkQueues(c *Ctx, e *ownEngine) {
 	}
 	var termDrain *ssa.Function
 	var drainCall ssa.Instruction
+	var termCovered map[*types.Var]bool
 	eachInstr(starter, func(_ *ssa.BasicBlock, _ int, in ssa.Instruction) {
 		if cc := callOf(in); cc != nil {
-			if g := calleeFn(cc); g != nil && drainFns[g] != nil {
+			if g := calleeFn(cc); g != nil {
 				if _, isGo := in.(*ssa.Go); !isGo {
-					termDrain, drainCall = g, in
+					if cov, df := drainCovered(g, cc.Args, e.queues, 0); df != nil && len(cov) > 0 {
+						termDrain, drainCall, termCovered = df, in, cov
+					}
 				}
 			}
 		}
@@ -369,7 +379,7 @@ func checkQueues(c *Ctx, e *ownEngine) {
 		if owner != "client" {
 			continue
 		}
-		c.Check(drainFns[termDrain][q], "R3", "terminal drain covers "+q.Name(), termDrain.Pos(), "received in the drain's select", "the terminal drain does not receive from queue "+q.Name()+": requests left there when the connection dies are never answered")
+		c.Check(termCovered[q], "R3", "terminal drain covers "+q.Name(), termDrain.Pos(), "received in the drain's select", "the terminal drain does not receive from queue "+q.Name()+": requests left there when the connection dies are never answered")
 	}
 	// the drain returns only from its default arm: every Return is reached only via the default block
 	for _, d := range drains {
@@ -509,8 +519,10 @@ func checkQueues(c *Ctx, e *ownEngine) {
 						// closed branch must reach a drain of q on every path
 						path := findPath(ipos{cb, -1}, pathQuery{target: isReturn, avoid: func(x ssa.Instruction) bool {
 							if cc := callOf(x); cc != nil {
-								if g := calleeFn(cc); g != nil && drainFns[g] != nil && drainFns[g][q] {
-									return true
+								if g := calleeFn(cc); g != nil {
+									if cov, _ := drainCovered(g, cc.Args, e.queues, 0); cov[q] {
+										return true
+									}
 								}
 							}
 							return false
@@ -530,6 +542,112 @@ func checkQueues(c *Ctx, e *ownEngine) {
 	}
 	c.Expect("R4", 5)
 	c.Expect("R5", 2)
+}
+
+// drainCovered: the request queues that a call of g with these arguments drains - the receive cases of g's
+// non-blocking selects. A case whose channel is "the queue or nil" (switched off by a nil channel) counts only when
+// the parameter that switches it is the matching constant at this call. Wrappers that only call the drain are
+// followed, with their constant arguments. The second result is the function that holds the select.
+func drainCovered(g *ssa.Function, args []ssa.Value, isQueue map[*types.Var]bool, depth int) (map[*types.Var]bool, *ssa.Function) {
+	if g == nil || g.Blocks == nil || depth > 3 {
+		return nil, nil
+	}
+	cov := map[*types.Var]bool{}
+	var holder *ssa.Function
+	argConst := func(v ssa.Value) (bool, bool) {
+		prm, ok := v.(*ssa.Parameter)
+		if !ok {
+			return false, false
+		}
+		idx := paramIndex(g, prm)
+		if idx < 0 || idx >= len(args) {
+			return false, false
+		}
+		if cst, ok := args[idx].(*ssa.Const); ok && cst.Value != nil && cst.Value.Kind() == constant.Bool {
+			return constant.BoolVal(cst.Value), true
+		}
+		return false, false
+	}
+	eachInstr(g, func(_ *ssa.BasicBlock, _ int, in ssa.Instruction) {
+		sel, ok := in.(*ssa.Select)
+		if !ok || sel.Blocking {
+			return
+		}
+		for _, st := range sel.States {
+			if st.Dir != types.RecvOnly {
+				continue
+			}
+			ph, isPhi := st.Chan.(*ssa.Phi)
+			if !isPhi {
+				if f, _ := chanFieldOf(st.Chan); f != nil && isQueue[f] {
+					cov[f] = true
+					holder = g
+				}
+				continue
+			}
+			f, _ := chanFieldOf(ph)
+			if f == nil || !isQueue[f] {
+				continue
+			}
+			// the edge that carries the queue comes from the branch of a test of a boolean parameter
+			for i, ed := range ph.Edges {
+				if isNilConst(ed) || ed == ssa.Value(ph) || i >= len(ph.Block().Preds) {
+					continue
+				}
+				pb := ph.Block().Preds[i]
+				if len(pb.Preds) != 1 {
+					continue
+				}
+				d := pb.Preds[0]
+				iff, ok := d.Instrs[len(d.Instrs)-1].(*ssa.If)
+				if !ok {
+					continue
+				}
+				want := d.Succs[0] == pb
+				cond := iff.Cond
+				if u, ok := cond.(*ssa.UnOp); ok && u.Op == token.NOT {
+					cond, want = u.X, !want
+				}
+				if val, known := argConst(cond); known && val == want {
+					cov[f] = true
+					holder = g
+				}
+			}
+		}
+	})
+	if holder != nil {
+		return cov, holder
+	}
+	// a wrapper: its calls of drains, with its own arguments handed on
+	eachInstr(g, func(_ *ssa.BasicBlock, _ int, in ssa.Instruction) {
+		cc := callOf(in)
+		if cc == nil {
+			return
+		}
+		if _, isGo := in.(*ssa.Go); isGo {
+			return
+		}
+		h := calleeFn(cc)
+		if h == nil || h == g || !isModFn(h) {
+			return
+		}
+		sub := make([]ssa.Value, len(cc.Args))
+		for i, a := range cc.Args {
+			sub[i] = a
+			if prm, ok := a.(*ssa.Parameter); ok {
+				if idx := paramIndex(g, prm); idx >= 0 && idx < len(args) {
+					sub[i] = args[idx]
+				}
+			}
+		}
+		if c2, h2 := drainCovered(h, sub, isQueue, depth+1); h2 != nil {
+			for f := range c2 {
+				cov[f] = true
+			}
+			holder = h2
+		}
+	})
+	return cov, holder
 }
 
 // checkChildCounters verifies the split/assemble counter protocol of every wrapper with children.
